@@ -32,12 +32,13 @@ Record facts := {
   f_clone_resets : bool;         (* clone() gives the clone fresh _inst_stack/_instances/_crossrefs/comment_positions *)
   f_except_restores : bool;      (* get_model_from_str: `except: self._restore_user_attr_methods(); raise` *)
   f_end_restores : bool;         (* _end_model_construction restores the user classes *)
-  f_restore_on_primitive : bool  (* get_model_from_str restores when the model is a primitive (no _tx_parser) *)
+  f_restore_on_primitive : bool; (* get_model_from_str restores when the model is a primitive (no _tx_parser) *)
+  f_restore_guarded : bool       (* a parser restores the user classes only if it has replaced them (and only once) *)
 }.
 
 Definition good (f : facts) : bool :=
   f_clear_in_finally f && f_loads_use_clone f && f_clone_resets f && f_except_restores f
-  && f_end_restores f && f_restore_on_primitive f.
+  && f_end_restores f && f_restore_on_primitive f && f_restore_guarded f.
 
 Record cfg := {
   c_gram : nat;            (* grammar *)
@@ -46,12 +47,14 @@ Record cfg := {
   c_base : bool;           (* the parser model reaches the shared non-terminal base rules NUMBER / BASETYPE *)
   c_classes : list nat;    (* user classes (process-wide class objects) *)
   c_repo : bool;           (* global_repository=True *)
+  c_root_user : bool;      (* the root rule has a user class (the model object is a user-class instance) *)
   c_opts : nat             (* everything else: processors, providers, flags (opaque to the state machine) *)
 }.
 
 Record gparser := { gp_memo : bool; gp_cache : list nat }.
 Record ucls := { u_instr : nat; u_store : nat; u_owner : nat; u_gram : option nat }.
-Record mm := { m_cfg : cfg; m_ser : nat; m_bp_dirty : bool; m_cache : list nat; m_repo : list nat }.
+Record mm := { m_cfg : cfg; m_ser : nat; m_bp_dirty : bool; m_cache : list nat; m_repo : list nat;
+               m_stale : bool (* the repository holds a half-built model of a failed load *) }.
 
 Record pst := {
   gparsers : bool -> bool -> option gparser;   (* key: debug, (memo if f_gp_key_memo else false) *)
@@ -77,7 +80,8 @@ Record view := {
   v_caches : list nat;           (* entries in the memo caches its parser model reaches *)
   v_instr : list nat;            (* instrumentation counters of the metamodel's user classes *)
   v_cgram : list (option nat);   (* grammar of the metamodel that owns each user class's _tx_ data *)
-  v_repo : list nat              (* files cached in the metamodel's global repository *)
+  v_repo : list nat;             (* files cached in the metamodel's global repository *)
+  v_stale : bool                 (* ... one of them half-built, left behind by a failed load *)
 }.
 
 Inductive ckind := CSyntax | CLate | COk.
@@ -85,12 +89,13 @@ Record cres := { k_kind : ckind; k_dump : nat }.
 
 Inductive lkind :=
 | LSyntax        (* the parse fails: nothing was instrumented yet *)
+| LImportSyntax  (* the main model is built and instrumented; an imported file fails to parse (nested load) *)
 | LBeforeEnd     (* failure after instrumentation, before _end_model_construction (unknown reference, ...) *)
 | LAfterEnd      (* failure after _end_model_construction (user __init__, object processor) *)
 | LModelProc     (* get_model_from_str returned; a model processor raised *)
 | LOkPrim        (* success, the model is a primitive Python value *)
 | LOk.           (* success *)
-Record lres := { l_kind : lkind; l_dump : nat; l_leak : nat; l_files : list nat }.
+Record lres := { l_kind : lkind; l_dump : nat; l_leak : list nat (* storage entries left, per user class *); l_files : list nat }.
 
 Inductive op := New (slot : nat) (c : cfg) | Load (slot : nat) (input : nat).
 Inductive out := OCreate (r : cres) | OLoad (r : lres) | ONoSlot.
@@ -105,12 +110,14 @@ Definition diff (a b : list nat) : list nat := filter (fun x => negb (mem_nat x 
 Definition map_classes (ids : list nat) (g : ucls -> ucls) (cl : nat -> ucls) : nat -> ucls :=
   fold_left (fun acc id => upd acc id (g (acc id))) ids cl.
 
+Definition leak_classes (ids ns : list nat) (cl : nat -> ucls) : nat -> ucls :=
+  fold_left (fun acc p => upd acc (fst p) (let u := acc (fst p) in
+     {| u_instr := u_instr u; u_store := u_store u + snd p; u_owner := u_owner u; u_gram := u_gram u |})) (combine ids ns) cl.
+
 Definition replace_u (u : ucls) : ucls :=
   {| u_instr := S (u_instr u); u_store := u_store u; u_owner := u_owner u; u_gram := u_gram u |}.
 Definition restore_u (u : ucls) : ucls :=
   {| u_instr := Nat.pred (u_instr u); u_store := u_store u; u_owner := u_owner u; u_gram := u_gram u |}.
-Definition leak_u (n : nat) (u : ucls) : ucls :=
-  {| u_instr := u_instr u; u_store := u_store u + n; u_owner := u_owner u; u_gram := u_gram u |}.
 Definition reown_u (ser g : nat) (u : ucls) : ucls :=
   {| u_instr := u_instr u; u_store := 0; u_owner := ser; u_gram := Some g |}.
 Definition when (b : bool) (g : ucls -> ucls) : ucls -> ucls := if b then g else (fun u => u).
@@ -141,7 +148,7 @@ Section Machine.
                | _ => map_classes (c_classes c) (reown_u ser (c_gram c)) (classes st)   (* _init_class on user classes *)
                end in
     let sl := match k_kind r with
-              | COk => upd (slots st) s (Some {| m_cfg := c; m_ser := ser; m_bp_dirty := false; m_cache := []; m_repo := [] |})
+              | COk => upd (slots st) s (Some {| m_cfg := c; m_ser := ser; m_bp_dirty := false; m_cache := []; m_repo := []; m_stale := false |})
               | _ => slots st
               end in
     ({| gparsers := upd2 (gparsers st) kd km (Some gp'); gp_keys := keys; base_cache := base_cache st;
@@ -153,17 +160,20 @@ Section Machine.
        v_caches := m_cache m ++ (if c_base c then base_cache st else []);
        v_instr := map (fun id => u_instr (classes st id)) (c_classes c);
        v_cgram := map (fun id => u_gram (classes st id)) (c_classes c);
-       v_repo := if c_repo c then m_repo m else [] |}.
+       v_repo := if c_repo c then m_repo m else [];
+       v_stale := m_stale m |}.
 
   (* what the load does to each user class of the metamodel, per outcome *)
   Definition class_effect (r : lres) : ucls -> ucls :=
     let ex := when (f_except_restores F) restore_u in
     let en := when (f_end_restores F) restore_u in
     let pr := when (f_restore_on_primitive F) restore_u in
+    let unguarded := when (negb (f_restore_guarded F)) in
     match l_kind r with
-    | LSyntax => ex                                                  (* except path, nothing was replaced *)
-    | LBeforeEnd => fun u => ex (leak_u (l_leak r) (replace_u u))
-    | LAfterEnd => fun u => ex (leak_u (l_leak r) (en (replace_u u)))
+    | LSyntax => unguarded ex                                        (* except path, nothing was replaced *)
+    | LImportSyntax => fun u => ex (unguarded ex (replace_u u))      (* the nested load's except path runs first *)
+    | LBeforeEnd => fun u => ex (replace_u u)
+    | LAfterEnd => fun u => unguarded ex (en (replace_u u))          (* second restore by the same parser *)
     | LModelProc => fun u => en (replace_u u)
     | LOkPrim => fun u => pr (replace_u u)
     | LOk => fun u => en (replace_u u)
@@ -184,12 +194,17 @@ Section Machine.
       let m' := {| m_cfg := c; m_ser := m_ser m;
                    m_bp_dirty := m_bp_dirty m || negb (f_loads_use_clone F) || negb (f_clone_resets F);
                    m_cache := after_parse (c_memo c) i (m_cache m);
-                   m_repo := if c_repo c then repo_effect r (m_repo m) else m_repo m |} in
+                   m_repo := if c_repo c then repo_effect r (m_repo m) else m_repo m;
+                   (* an unguarded nested restore un-instruments the classes: the half-built user-class root is
+                      no longer recognised as "in construction" and stays in the repository *)
+                   m_stale := m_stale m || (match l_kind r with LImportSyntax => true | _ => false end
+                                            && negb (f_restore_guarded F) && c_repo c && c_root_user c) |} in
       ({| gparsers := gparsers st; gp_keys := gp_keys st;
           base_cache := if c_base c then after_parse (c_memo c) i (base_cache st) else base_cache st;
           base_owner := base_owner st; next_ser := next_ser st;
           slots := upd (slots st) s (Some m');
-          classes := map_classes (c_classes c) (class_effect r) (classes st) |}, OLoad r)
+          (* per-object storage the load did not pop (observed: failing loads leave their entries) *)
+          classes := leak_classes (c_classes c) (l_leak r) (map_classes (c_classes c) (class_effect r) (classes st)) |}, OLoad r)
     end.
 
   Definition step (st : pst) (o : op) : pst * out :=
@@ -209,6 +224,6 @@ Section Machine.
     {| v_memo := c_memo c; v_bp_dirty := false; v_caches := [];
        v_instr := map (fun _ => 0) (c_classes c);
        v_cgram := map (fun _ => Some (c_gram c)) (c_classes c);
-       v_repo := repo |}.
+       v_repo := repo; v_stale := false |}.
   Definition fresh_gview (c : cfg) : gview := {| gv_memo := c_memo c; gv_cache := [] |}.
 End Machine.
